@@ -140,13 +140,24 @@ class ModelResult:
     pass
 
 
+def lf_lines(text):
+    """Content LINES: separated by line feeds only (form feeds, U+2028, NEL ... are characters of a line)."""
+    L = text.split("\n")
+    if L and L[-1] == "":
+        L.pop()
+    return L
+
+
+SEP_LINES = ["form\x0cfeed", "ls\u2028sep", "nel\x85x", "fs\x1cx gs\x1dx rs\x1ex", "vt\x0bx", "\x0c", "ps\u2029x", "  indented\x0cff"]
+
+
 def model(cls, first, content, additional):
     """Independent re-statement of the split. Returns a ModelResult or ('error', reason)."""
     from docutils.parsers.rst.directives import flag
 
     from myst_parser.parsers.options import TokenizeError, options_to_items
 
-    L = content.splitlines()
+    L = lf_lines(content)
     r = ModelResult()
     r.opt_lines = None
     body, off = L, 0
@@ -288,7 +299,7 @@ def eval_split(ctx, case):
         ctx.violation(f"body:{lay}", f"body {r.body!r}, model {m.body!r}", case, {"model_options_lines": m.opt_lines})
         return
     if m.offset is not None and rstrip_list(r.body):
-        L = content.splitlines()
+        L = lf_lines(content)
         stated = L[r.body_offset :][: len(rstrip_list(r.body))] == rstrip_list(r.body)
         if r.body_offset != m.offset or not stated:
             ctx.violation(f"offset:{lay}:delta{r.body_offset - m.offset:+d}", f"body_offset {r.body_offset}, index of first body line is {m.offset}", case, {"body": r.body})
@@ -456,6 +467,10 @@ def run_shard(ctx):
         key = R.choice(keys)
         voc = lines_for(key)
         lines = [R.choice(voc) for _ in range(R.randint(0, 12))]
+        if R.random() < 0.25:  # characters that str.splitlines() treats as line ends but that are part of a content line
+            for _ in range(R.randint(1, 3)):
+                lines.insert(R.randint(0, len(lines)), R.choice(SEP_LINES))
+            ctx.count("contents_with_non_lf_separators")
         if R.random() < 0.5:  # make an option block likely
             lines.sort(key=lambda l: 0 if l.lstrip().startswith(":") else 1)
             if R.random() < 0.4:
